@@ -41,14 +41,16 @@ pub struct Limits {
     pub replay_max: usize,
     pub audit_depth: usize,
     pub threads: usize,
+    /// explore histories of at most this many operations (None = to the fixpoint of the universe)
+    pub max_depth: Option<u64>,
 }
 
 impl Limits {
     pub fn quick() -> Self {
-        Limits { max_states: 3_000_000, wall: Duration::from_secs(40), replay_max: 20_000, audit_depth: 2, threads: 16 }
+        Limits { max_states: 3_000_000, wall: Duration::from_secs(40), replay_max: 20_000, audit_depth: 2, threads: 16, max_depth: None }
     }
     pub fn thorough() -> Self {
-        Limits { max_states: 40_000_000, wall: Duration::from_secs(1500), replay_max: 200_000, audit_depth: 3, threads: 16 }
+        Limits { max_states: 40_000_000, wall: Duration::from_secs(1500), replay_max: 200_000, audit_depth: 3, threads: 16, max_depth: None }
     }
     pub fn for_args(a: &Args) -> Self {
         let mut l = if a.thorough() { Self::thorough() } else { Self::quick() };
@@ -109,7 +111,12 @@ pub fn explore<M: Machine>(m: &M, lim: &Limits, acc: &mut Acc) {
     let mut exhaustive = true;
     let mut viols: Vec<(u32, M::Op, StepErr)> = vec![];
     let mut pruned_outside = 0u64;
+    let mut depth_bound_hit = false;
     while !frontier.is_empty() {
+        if lim.max_depth.map_or(false, |d| depth >= d) {
+            depth_bound_hit = true;
+            break;
+        }
         if t0.elapsed() > lim.wall || recs.len() > lim.max_states {
             exhaustive = false;
             acc.caps_hit.push(format!(
@@ -235,7 +242,7 @@ pub fn explore<M: Machine>(m: &M, lim: &Limits, acc: &mut Acc) {
     }
     // ---- conformance pass 2: dedup audit (tree search without visited set)
     let mut audit_paths = 0u64;
-    if lim.audit_depth > 0 && exhaustive {
+    if lim.audit_depth > 0 && exhaustive && !depth_bound_hit {
         let inits = m.inits();
         let mut layer: Vec<M::S> = inits;
         for _d in 0..lim.audit_depth {
@@ -289,7 +296,7 @@ pub fn explore<M: Machine>(m: &M, lim: &Limits, acc: &mut Acc) {
     fs.calls += transitions * m.calls_per_step();
     fs.depth = depth;
     fs.exhaustive = exhaustive;
-    fs.bounds = format!("{} ; states checked-but-not-expanded because outside the universe: {} ; audit paths {}", m.bounds(), pruned_outside, audit_paths);
+    fs.bounds = format!("{}{} ; states checked-but-not-expanded because outside the universe: {} ; audit paths {}", m.bounds(), lim.max_depth.map(|d| format!(" ; histories of at most {} operations from the initial states", d)).unwrap_or_else(|| " ; to the fixpoint of the universe".into()), pruned_outside, audit_paths);
 }
 
 /// Re-execute a recorded history in a straight line; returns number of violations.
@@ -321,7 +328,7 @@ impl<M: Machine> crate::e2::Part for E1Part<M> {
     }
     fn run(&self, args: &Args, acc: &mut Acc) {
         let lim = match &self.lim {
-            Some(l) => Limits { max_states: l.max_states, wall: l.wall, replay_max: l.replay_max, audit_depth: l.audit_depth, threads: args.jobs as usize },
+            Some(l) => Limits { max_states: l.max_states, wall: l.wall, replay_max: l.replay_max, audit_depth: l.audit_depth, threads: args.jobs as usize, max_depth: l.max_depth },
             None => Limits::for_args(args),
         };
         explore(&self.m, &lim, acc);
